@@ -26,6 +26,11 @@
 (* Deviations (what an implementation that walks a hash map does):         *)
 (*   "imports_in_map_order"  the import block is emitted in the iteration  *)
 (*                           order of a map (any permutation);             *)
+(*   "tie_broken_by_map_order"  the import block IS sorted, but by a key    *)
+(*                           that is not injective (e.g. ignoring letter    *)
+(*                           case: imports 1 and 2 tie); the sort is stable *)
+(*                           over the iteration order of a map, so the tie  *)
+(*                           comes out in map order;                        *)
 (*   "phnames_in_map_order"  base names are processed in the iteration     *)
 (*                           order of a map, suffix collisions are checked *)
 (*                           against the names assigned SO FAR, a single-  *)
@@ -120,7 +125,8 @@ DevNames(ph, ord) ==
 \* a run's internal iteration choices: one priority order for imports, one for base names
 BaseOrders   == SetToSeqs({X0, X1})
 ImportOrders == SetToSeqs(AllImports)
-IterChoices == [io : IF "imports_in_map_order" \in Dev THEN ImportOrders ELSE {<<1, 2, 3>>},
+MapOrderSeen == "imports_in_map_order" \in Dev \/ "tie_broken_by_map_order" \in Dev
+IterChoices == [io : IF MapOrderSeen THEN ImportOrders ELSE {<<1, 2, 3>>},
             bo : IF "phnames_in_map_order" \in Dev THEN BaseOrders ELSE {<<X0, X1>>}]
 
 KeepIn(seq, S) == SelectSeq(seq, LAMBDA x : x \in S)
@@ -129,7 +135,16 @@ Names(shape, c) ==
   LET ph == Placeholders(shape.msg)
   IN IF "phnames_in_map_order" \in Dev THEN DevNames(ph, KeepIn(c.bo, Bases(ph))) ELSE RefNames(ph)
 
-ImportBlock(shape, c) == KeepIn(c.io, shape.imps)      \* c.io = <<1,2,3>> (sorted) in the reference
+\* the comparison key of an import: the identity (injective) in the reference
+SortKey(i) == IF "tie_broken_by_map_order" \in Dev THEN (i + 1) \div 2 ELSE i     \* 1, 2 -> 1 ; 3 -> 2
+\* a stable sort of seq by SortKey (keys are in 1..3)
+StableSortByKey(seq) ==
+  KeepIn(seq, {x \in AllImports : SortKey(x) = 1}) \o KeepIn(seq, {x \in AllImports : SortKey(x) = 2})
+    \o KeepIn(seq, {x \in AllImports : SortKey(x) = 3})
+
+ImportBlock(shape, c) ==
+  IF "imports_in_map_order" \in Dev THEN KeepIn(c.io, shape.imps)
+  ELSE StableSortByKey(KeepIn(c.io, shape.imps))      \* = <<1,2,3>> restricted, in the reference
 
 PosOf(order, f) == CHOOSE i \in 1..Len(order) : order[i] = f
 
